@@ -235,6 +235,25 @@ func gen(c *ex.Ctx) {
 		cps = append(cps, ex.LeanStr(oneLine(c.Src(st))))
 	}
 	fmt.Fprintf(&sb, "\n/-- CursorPosition(): top-level statements in source order. -/\ndef cp_stmts : List String := [\n  %s\n]\n", strings.Join(cps, ",\n  "))
+	// the exits of CursorPosition: each arm of its final select with the statements it runs
+	var arms []string
+	if n := len(cp.Body.List); n > 0 {
+		if sel, ok := cp.Body.List[n-1].(*ast.SelectStmt); ok {
+			for _, cl := range sel.Body.List {
+				cc := cl.(*ast.CommClause)
+				comm := "default"
+				if cc.Comm != nil {
+					comm = oneLine(c.Src(cc.Comm))
+				}
+				var body []string
+				for _, st := range cc.Body {
+					body = append(body, oneLine(c.Src(st)))
+				}
+				arms = append(arms, fmt.Sprintf("(%s, %s)", ex.LeanStr(comm), strList(body)))
+			}
+		}
+	}
+	fmt.Fprintf(&sb, "\n/-- CursorPosition(): the arms of its final select (communication, statements). Empty if the last statement is not a select. -/\ndef cp_select : List (String × List String) := [\n  %s\n]\n", strings.Join(arms, ",\n  "))
 	sb.WriteString("\nend VaxisModel.Gen.Caps\n")
 	c.Write("Caps.lean", sb.String())
 }
